@@ -138,19 +138,32 @@ def pair_oracle(case, stats):
     cell = CELLS[case["cell"]]
     dist = c * (1 + case["delta"])
     u = _dir(case["k"])
-    p1_f = np.array([0.37, 0.41, 0.29]) + 0.2 * _dir(case["k"] + 7)
     if cell is None:
         p1 = np.array([1.0, 2.0, 3.0])
         p2 = p1 + u * dist
         pos = [p1, p2]
     else:
         C = np.array(cell, float)
-        if geom.perp_widths(C).min() <= 5.7:
+        w = geom.perp_widths(C)
+        if w.min() <= 5.7:
             raise AssertionError("cell too small")
-        p1 = geom.wrap(C, geom.cart(C, p1_f))
-        # the second atom sits at distance `dist` from the chosen *image* of the first one
-        p2 = p1 + np.array(case["img"], float) @ C + u * dist
-        p2 = geom.wrap(C, p2)
+        img = np.array(case["img"], float)
+        # unit normals of the faces (pointing to increasing fractional coordinate)
+        rec = np.linalg.inv(C).T
+        nhat = rec / np.linalg.norm(rec, axis=1)[:, None]
+        f = np.array([0.37, 0.41, 0.29]) + 0.15 * _dir(case["k"] + 7)
+        if img.any():
+            # the first atom sits a fraction t of the bond length inside the faces to be crossed, the bond points outwards
+            # through them: the pair is then bonded only through a non-identity image after wrapping
+            t = (0.03, 0.5, 0.93)[case["k"] % 3]
+            u0 = (img[:, None] * nhat).sum(axis=0) + 0.15 * u
+            u = u0 / np.linalg.norm(u0)
+            for ax in range(3):
+                if img[ax] != 0:
+                    comp = abs(float(np.dot(u, nhat[ax])))
+                    f[ax] = (1.0 if img[ax] > 0 else 0.0) - img[ax] * t * dist * comp / w[ax]
+        p1 = geom.cart(C, np.clip(f, 0.0, 0.999999))
+        p2 = geom.wrap(C, p1 + u * dist)
         pos = [p1, p2]
     els = [a, b]
     if case["k"] % 2:
@@ -197,12 +210,16 @@ def structure_case(draw):
         if cell is not None:
             p = geom.wrap(C, p)
         pos.append(np.asarray(p, float).tolist())
-    xf = draw(st.sampled_from(["shift", "permute", "none"]))
+    xf = draw(st.sampled_from(["shift", "permute", "none", "edit"]))
     case = {"els": els, "pos": pos, "cell": cell, "xf": xf, "cell_cls": ck}
     if xf == "shift":
         case["v"] = [draw(st.floats(-15, 15)) for _ in range(3)]
     elif xf == "permute":
         case["perm"] = list(draw(st.permutations(range(n))))
+    elif xf == "edit":
+        # history on one object: detect, edit cell / positions in place, detect again
+        case["stretch"] = [draw(st.sampled_from([1.0, 1.25, 1.6])) for _ in range(3)]
+        case["move"] = [draw(st.integers(0, n - 1)), [draw(st.floats(0, 0.999)) for _ in range(3)]]
     return case
 
 
@@ -229,6 +246,30 @@ def structure_oracle(case, stats):
         back = set(tuple(sorted((perm[i], perm[j]))) for i, j in rows)
         if back != want or len(rows) != len(want):
             raise Violation("permutation-changes-bonds", "after reordering by %r: %r vs %r" % (perm, sorted(back), sorted(want)))
+    elif case["xf"] == "edit":
+        from mofun.detect_bonds import detect_bonds
+        a = build(els, pos, cell)
+        with silenced():
+            detect_bonds(a)
+            C2 = None
+            if cell is not None:
+                for ax in range(3):
+                    a.cell[ax, :] *= case["stretch"][ax]            # in-place edit of the cell (atoms stay inside)
+                C2 = np.array(a.cell, float)
+            j, fr = case["move"]
+            a.positions[j] = geom.cart(C2 if C2 is not None else np.eye(3) * 12.0, fr)
+            p2 = np.array(a.positions, float)
+            try:
+                b2 = detect_bonds(a)
+            except Exception as e:
+                raise Violation("exception-in-detect-bonds", "second call on an edited object: %s: %r" % (type(e).__name__, e))
+        rows = set(tuple(int(x) for x in r) for r in np.asarray(b2).reshape(-1, 2)) if len(b2) else set()
+        w2, info2 = reference(els, p2, None if C2 is None else C2.tolist(), radii)
+        if all(abs(v[0] / v[1] - 1) > 1e-7 for v in info2.values()) and rows != w2:
+            k = sorted(rows ^ w2)[0]
+            raise Violation("stale-state-after-edit", "detect_bonds called again on the same object after editing cell/positions "
+                            "in place: pair %r min-image distance %.5f cutoff %.5f is %s" %
+                            (k, info2[k][0], info2[k][1], "missing" if k in w2 else "spurious"))
     stats.count("cell:" + case["cell_cls"])
     stats.count("xf:" + case["xf"])
     stats.count("bonds:%s" % (len(want) if len(want) < 5 else "5+"))
